@@ -167,8 +167,17 @@ class C07(Check):
                "model_dump(); Exception.__init__ stores its first argument as the text of the exception"]
 
     def install(self, ctx):
-        E.install_standard(ctx)
+        from checks import sendmsg
+        sendmsg.install(ctx)
         ctx.env_class(MESSAGE)
+
+        def dyn(I, fv, args, kwargs, node, awaited):
+            """methods of caller-supplied argument objects: any value or any Exception"""
+            from pyvc.core import PyRaise
+            if I.choose_n(2, "argument_method_outcome") == 1:
+                raise PyRaise(I.make_exc("AnyException", V.VStr("")), "AnyException")
+            return I.fresh("dyn_result")
+        ctx.dynamic_call_hook = dyn
 
     def contracts(self):
         from checks import helpers_c07
